@@ -103,7 +103,77 @@ func runC16(c *Ctx) {
 	c.Floor("C16.2-handler-exits-without-enqueue", nExit, 9)
 	c.enqueueClasses()
 	c.resolveRef()
+	c.orphanMatching()
 	c.workerWiring("C16.3")
+}
+
+// orphanMatching: the sets an unowned pod wakes up are those whose *whole* selector matches its labels: in the lister's
+// GetPodStatefulSets a set is appended to the result exactly under Matches(pod labels) of the selector built by
+// LabelSelectorAsSelector from that set's spec.selector (matchLabels and matchExpressions), in the pod's namespace.
+func (c *Ctx) orphanMatching() {
+	fi := c.Func(load.ListerPkg, "statefulSetLister.GetPodStatefulSets")
+	if fi == nil {
+		return
+	}
+	fn, an := c.Analysis(fi)
+	info := fi.Pkg.TypesInfo
+	pods := paramsOfType(fi, "k8s.io/api/core/v1", "Pod")
+	var app *ast.AssignStmt
+	var appended ast.Expr
+	ownNodes(fi.Decl.Body, func(n ast.Node) {
+		as, ok := n.(*ast.AssignStmt)
+		if !ok || len(as.Lhs) != 1 || len(as.Rhs) != 1 {
+			return
+		}
+		call, ok := ast.Unparen(as.Rhs[0]).(*ast.CallExpr)
+		if !ok || len(call.Args) != 2 {
+			return
+		}
+		if id, ok := call.Fun.(*ast.Ident); ok && id.Name == "append" && isNamed(info.TypeOf(call.Args[1]), load.APIPkg, "StatefulSet") {
+			app, appended = as, call.Args[1]
+		}
+	})
+	name := "GetPodStatefulSets: matching sets"
+	if app == nil || len(pods) != 1 {
+		c.Unk("C16.2-orphan-matching-uses-the-whole-selector", name, fi.Decl.Pos(), "no append of a StatefulSet to the result, or no single pod parameter")
+		return
+	}
+	loop := innermostLoop(fi.Decl.Body, app)
+	if loop == nil {
+		c.Unk("C16.2-orphan-matching-uses-the-whole-selector", name, app.Pos(), "the result is not filled in a loop")
+		return
+	}
+	// the Matches calls of the loop whose result holds at the append
+	st := an.StateBefore(app)
+	good := false
+	why := "the set is appended without the pod's labels having matched a selector"
+	for _, call := range callsIn(loopBody(loop), false) {
+		sel, ok := ast.Unparen(call.Fun).(*ast.SelectorExpr)
+		if !ok || sel.Sel.Name != "Matches" || len(call.Args) != 1 {
+			continue
+		}
+		if g, _ := st.Implies(fn.Formula(call)); !g {
+			continue
+		}
+		// matched against the pod's labels
+		if want := c.TryWantTerm(fn, call.Pos(), "$1.Labels", pods[0]); want == nil || fn.Term(call.Args[0]).Key() != want.Key() {
+			why = "the selector is not matched against the pod's labels"
+			continue
+		}
+		// the selector: the conversion of the appended set's whole spec.selector
+		src, _ := reachingDefRHS(fi, info, sel.X, call).(*ast.CallExpr)
+		if src == nil || calleeName(info, src) != "k8s.io/apimachinery/pkg/apis/meta/v1.LabelSelectorAsSelector" || len(src.Args) != 1 {
+			why = "the selector matched is not LabelSelectorAsSelector(<set>.Spec.Selector): match expressions (or the whole selector) are ignored when deciding which sets an orphan wakes up"
+			continue
+		}
+		want := c.TryWantTerm(fn, src.Pos(), "$1.Spec.Selector", appended)
+		if same, _ := an.StateAtExpr(src).Implies(gf.FEq(fn.Term(src.Args[0]), want)); want != nil && (fn.Term(src.Args[0]).Key() == want.Key() || same) {
+			good = true
+		} else {
+			why = "the selector matched is not the appended set's own spec.selector"
+		}
+	}
+	c.Check(good, "C16.2-orphan-matching-uses-the-whole-selector", name, app.Pos(), "appended under Matches(pod labels) of LabelSelectorAsSelector(set.Spec.Selector)", why)
 }
 
 // skipDiscipline: exits reachable without an enqueue must carry a skip fact.
@@ -576,6 +646,46 @@ func (c *Ctx) resolveRef() {
 		return true
 	})
 	c.Floor("C16.2-resolve-non-nil-returns", n, 1)
+	// and nil only for a reason: the reference is of another kind, the set is not in the cache, or its UID differs.
+	// Any further condition (an exact API version, a name pattern) makes pods of a live set enqueue nothing.
+	var lookup *ast.AssignStmt
+	for _, s := range c.G.Sites {
+		if s.Fn == fi.Obj && s.Verb == "Get" && (s.Class == "cached-read" || s.Class == "read") {
+			if as, ok := stmtOf(fi.Decl.Body, s.Call).(*ast.AssignStmt); ok && len(as.Lhs) == 2 {
+				lookup = as
+			}
+		}
+	}
+	nNil := 0
+	fn.KeepDead = true // (the lookup's error is not read again after its test)
+	anK := fn.Analyze(nil)
+	fn.KeepDead = false
+	ownNodes(fi.Decl.Body, func(x ast.Node) {
+		ret, ok := x.(*ast.ReturnStmt)
+		if !ok || len(ret.Results) != 1 || !isNilExpr(info, ret.Results[0]) {
+			return
+		}
+		st := anK.StateBefore(ret)
+		if !st.Reachable() {
+			return
+		}
+		nNil++
+		alts := []*gf.Formula{c.Want(fn, ret.Pos(), "$1.Kind != controllerKind.Kind", ref)}
+		if lookup != nil && lookup.End() <= ret.Pos() {
+			if e, isID := lookup.Lhs[1].(*ast.Ident); isID && e.Name != "_" {
+				alts = append(alts, gf.FNotNil(fn.Term(e)))
+			}
+			if sv, isID := lookup.Lhs[0].(*ast.Ident); isID && sv.Name != "_" {
+				if f := c.TryWantTerm(fn, ret.Pos(), "$1.UID", sv); f != nil {
+					if g := c.TryWantTerm(fn, ret.Pos(), "$1.UID", ref); g != nil {
+						alts = append(alts, gf.FNe(f, g))
+					}
+				}
+			}
+		}
+		c.Implies(st, gf.Or(alts...), "C16.2-resolve-nil-only-for-a-reason", fmt.Sprintf("resolveControllerRef: return nil #%d", nNil), ret.Pos())
+	})
+	c.Floor("C16.2-resolve-nil-returns", nNil, 2)
 }
 
 // mustReachOrSkip: started right after the last definition of a local that
